@@ -158,6 +158,9 @@ pub struct World {
     /// offSize of the charstrings INDEX in the base font (CFF carriers)
     #[serde(default)]
     pub cff_off_size0: u8,
+    /// forces the outline data length of one glyph (used to land totals exactly on offset-size limits)
+    #[serde(default)]
+    pub len_adjust: Option<(u32, u32)>,
 }
 
 /// Everything of a minimal CFF / CFF2 table that precedes the charstrings INDEX (which the IFT
@@ -225,7 +228,13 @@ impl World {
     /// Data of glyph `gid` in `table` in the complete font (alt != 0: a disagreeing variant).
     pub fn glyph_data(&self, table: &Tag4, gid: u32, alt: u8) -> Vec<u8> {
         let mut r = Rng::new(mix(mix(self.data_seed, crate::core::rng::fnv(table)), gid as u64));
-        let len = if self.big_gids.contains(&gid) {
+        let forced = match self.len_adjust {
+            Some((g, l)) if g == gid && *table == self.outline_tag() => Some(l as usize),
+            _ => None,
+        };
+        let len = if let Some(l) = forced {
+            l
+        } else if self.big_gids.contains(&gid) {
             30_000 + r.below(40_000) as usize
         } else {
             match r.below(10) {
@@ -1151,6 +1160,8 @@ pub fn gen_world(rng: &mut Rng) -> World {
         _ => 0,
     };
     let off_size_pick = *rng.pick(&[1u8, 1, 1, 2, 3, 4]);
+    let threshold_mode = rng.chance(1, 3);
+    let threshold_delta = *rng.pick(&[-1i64, 0, 0, 1, 1, 2]);
     let has_gvar = carrier == 0 && rng.chance(1, 2);
     let gvar_long = rng.chance(1, 3);
     let mut base_gids: Vec<u32> = vec![0];
@@ -1168,7 +1179,7 @@ pub fn gen_world(rng: &mut Rng) -> World {
     let r0 = g.version(0, 0, has_gvar, two);
     let r1 = if two { Some(g.version(0, 1, has_gvar, true)) } else { None };
     let (versions, patches) = (g.versions, g.patches);
-    let mut w = World { n_glyphs, loca_long, has_gvar, gvar_long, data_seed, base_gids, big_gids, opaque, versions, roots: [Some(r0), r1], patches, carrier, cff_off_size0: 1 };
+    let mut w = World { n_glyphs, loca_long, has_gvar, gvar_long, data_seed, base_gids, big_gids, opaque, versions, roots: [Some(r0), r1], patches, carrier, cff_off_size0: 1, len_adjust: None };
     if w.carrier != 0 {
         let tag = w.outline_tag();
         for p in w.patches.iter_mut() {
@@ -1182,6 +1193,35 @@ pub fn gen_world(rng: &mut Rng) -> World {
             need += 1;
         }
         w.cff_off_size0 = need.max(off_size_pick);
+        if threshold_mode {
+            // one wildcard glyph-keyed entry whose patch supplies every glyph missing from the base, sized so
+            // that the final charstrings total lands exactly on, one below or one above an offset-size limit
+            let missing: Vec<u32> = (0..w.n_glyphs).filter(|g| !w.base_gids.contains(g)).collect();
+            if let (Some(r0), Some(&adj)) = (w.roots[0], missing.last()) {
+                if w.versions[r0].table_format == 2 && !w.versions[r0].entries.is_empty() {
+                    let mut e = w.versions[r0].entries[0].clone();
+                    e.cps.clear();
+                    e.cp_mode = 0;
+                    e.features.clear();
+                    e.design.clear();
+                    e.children.clear();
+                    e.ignored = false;
+                    e.format = 3;
+                    w.patches.push(Patch::Glyph { gids: missing.clone(), tables: vec![tag], wide: false, alt: 0 });
+                    e.patch = w.patches.len() - 1;
+                    w.versions[r0].entries = vec![e];
+                    w.versions[r0].default_format = 3;
+                    w.roots[1] = None;
+                    let others: usize = (0..w.n_glyphs).filter(|g| *g != adj).map(|g| w.glyph_data(&tag, g, 0).len()).sum();
+                    let limits = [254usize, 65534];
+                    if let Some(limit) = limits.iter().find(|l| **l + 1 >= others + 1) {
+                        let target = (*limit as i64 + threshold_delta).max(others as i64 + 1) as usize;
+                        w.len_adjust = Some((adj, (target - others) as u32));
+                        w.cff_off_size0 = if *limit == 254 { 1 } else { w.cff_off_size0.min(2).max(need) };
+                    }
+                }
+            }
+        }
     }
     // the base font itself must be well formed: short offsets only if the base data fits them
     let base_total = |w: &World, t: &Tag4| -> usize { w.base_gids.iter().map(|g| { let l = w.glyph_data(t, *g, 0).len(); l + l % 2 }).sum() };
